@@ -18,6 +18,9 @@ def floordiv(a, b):
 class ExprMixin:
     # ---------------------------------------------------------------- names
     def lookup(self, name, fr):
+        ef = getattr(self.cur_contract, 'effects', None) or {}
+        if name in ef and name not in fr.env:
+            return Builtin('effect:' + name, lambda a, k, n, f, name=name: self.do_effect(name, a, k, ef[name], n, f))
         of = getattr(self.cur_contract, 'opaque_fns', None) or {}
         if name in of and name not in fr.env:
             from .zsorts import VFn
@@ -265,7 +268,7 @@ class ExprMixin:
                 return ~v
             if z3.is_bv(v):
                 return ~v
-            return -v - 1
+            return self.ufun('py_bitnot', z3.IntSort(), z3.IntSort())(v)
         raise Unsupported('unary op')
 
     def ev_BinOp(self, e, fr):
@@ -347,6 +350,10 @@ class ExprMixin:
             return a - b
         if isinstance(op, ast.Mult):
             return a * b
+        if isinstance(op, (ast.BitAnd, ast.BitOr, ast.BitXor)):
+            nm = {ast.BitAnd: 'py_bitand', ast.BitOr: 'py_bitor', ast.BitXor: 'py_bitxor'}[type(op)]
+            self.assumptions.add('bit operations on symbolic integers are uninterpreted functions shared by code and spec')
+            return self.ufun(nm, z3.IntSort(), z3.IntSort(), z3.IntSort())(a, b)
         if isinstance(op, (ast.FloorDiv, ast.Mod)):
             nz = b != 0
             if not self.cur_pure():
@@ -648,6 +655,15 @@ class ExprMixin:
         except AttributeError:
             raise PyRaise(AttributeError, (attr,), node, implicit=True)
         return v
+
+    def do_effect(self, name, args, kwargs, may_raise, node, fr):
+        """a call that reaches the outside world: an event of the ghost trace; it may fail with the listed exceptions"""
+        self.path.trace.append((name,) + tuple(args))
+        for exn in may_raise:
+            fails = self.path.fresh(z3.BoolSort(), f'{name}_raises_{exn}')
+            if self.path.branch(fails):
+                raise PyRaise(self.exc_class(exn, fr.module if fr else None), (), node)
+        return None
 
     def obj_attr(self, base, attr, node):
         om = getattr(self.cur_contract, 'opaque', None) or {}
